@@ -324,6 +324,8 @@ Section Pure.
     - injection H as <-. exact I.
     - ob H a1. ob H x1. injection H as <-. exact I.
   Qed.
+  Lemma bi_random_closed : forall args v, bi_random args = Ok v -> closed_value st v.
+  Proof. intros args v H. unfold bi_random in H. ob H a0. ob H x0. injection H as <-. exact I. Qed.
   Lemma bi_to_number_closed : forall args v, bi_to_number args = Ok v -> closed_value st v.
   Proof.
     intros args v H. unfold bi_to_number in H.
